@@ -294,7 +294,10 @@ func c04genRows(r *rand.Rand, version int, uniqueNames bool) *c04rows {
 	}
 	nr := r.Intn(6)
 	if nc == 0 {
-		nr = r.Intn(3)
+		// columns_count is "the number of columns selected by the query that produced this result": no query selects
+		// none, so rows without columns are not something a server says (the driver refuses them since 3d738c1,
+		// because such rows take no bytes and could be announced by the billion); the empty shape stays
+		nr = 0
 	}
 	for i := 0; i < nr; i++ {
 		var row []cqlref.Val
